@@ -69,6 +69,20 @@ def gen_item(rng, items, name=None):
     factories = [n for n, it in cur.items() if it["k"] == "factory"]
     decos = [n for n, it in cur.items() if it["k"] == "deco"]
     r = rng.random()
+    if name is None:
+        q = rng.random()
+        if q < 0.05:
+            # dunder-named module globals that belong to the *source*, not to the import system
+            dn = rng.choice(["__all__", "__version__", "__author__", "__all__"])
+            val = (rng.choice(["['f']", "['f', 'g']", "['X']", "[]"]) if dn == "__all__"
+                   else rng.choice(["'1.0'", "'2.0'", "'me'"]))
+            return dict(k="data", name=dn, val=val)
+        if q < 0.08:
+            # PEP 562 module-level __getattr__ / __dir__
+            return dict(k="pep562", name=rng.choice(["__getattr__", "__getattr__", "__dir__"]), c=rng.choice(INTS))
+        if q < 0.14:
+            # variable annotation: creates / extends the module's __annotations__
+            return dict(k="data", name=rng.choice(DN + ["W"]), val=rng.choice(["1", "2", "3"]), ann=rng.choice(["int", "object"]))
     if r < 0.04 and name is None:
         st = rng.choice(EXT_IMPORTS)
         return dict(k="import", stmt=st, name=st.split()[-1])
@@ -219,7 +233,13 @@ def render_item(it):
     if k == "import":
         return [it["stmt"]]
     if k == "data":
+        if it.get("ann"):
+            return ["%s: %s = %s" % (n, it["ann"], it["val"])]
         return ["%s = %s" % (n, it["val"])]
+    if k == "pep562":
+        if n == "__getattr__":
+            return ["def __getattr__(name):\n    if name == 'lazy_attr':\n        return %d\n    raise AttributeError(name)" % it["c"]]
+        return ["def __dir__():\n    return ['lazy_attr', 'n%d']" % it["c"]]
     if k == "func":
         params = ["a"] if it["np"] == 1 else ["a", "b"]
         if it["dflt"] is not None:
@@ -369,7 +389,7 @@ def mutate(rng, items):
         elif r < 0.22:
             pos = rng.randint(0, len(items))
             items.insert(pos, gen_item(rng, items[:pos]))
-        elif r < 0.28:
+        elif r < 0.28 and not it["name"].startswith("__"):
             # replace by an item of a (probably) different kind under the same name
             items[idx] = gen_item(rng, items[:idx], name=it["name"])
         elif r < 0.31 and len(items) > 1:
@@ -377,8 +397,20 @@ def mutate(rng, items):
             items[idx], items[j] = items[j], items[idx]
         else:
             k = it["k"]
-            if k == "data":
+            if k == "data" and it["name"].startswith("__"):
+                it["val"] = (rng.choice(["['f']", "['f', 'g']", "['X']", "[]"]) if it["name"] == "__all__"
+                             else rng.choice(["'1.0'", "'2.0'", "'me'"]))
+            elif k == "data" and it.get("ann"):
+                if rng.random() < 0.5:
+                    it["val"] = rng.choice(["1", "2", "3"])
+                else:
+                    it["ann"] = rng.choice([None, "int", "object", "str"])
+            elif k == "data":
                 it["val"] = rng.choice(LITS)
+                if rng.random() < 0.1 and it["val"].isdigit():
+                    it["ann"] = "int"
+            elif k == "pep562":
+                it["c"] = rng.choice(INTS)
             elif k == "func":
                 w = rng.random()
                 if w < 0.4:
@@ -483,9 +515,16 @@ def gen_case(rng, tier="quick"):
         tries += 1
     new = mutate(rng, old)
     case = dict(old=render(old), new=render(new), fail=None, via=rng.choice(["module", "module", "name", "path"]))
-    if rng.random() < 0.12:
+    # how the file's mtime of the tested edit relates to the module's load time (set with os.utime by the harness):
+    # "newer" | "equal" (only meaningful after a preceding reload: loadtime = mtime of the previous edit) | "older"
+    r = rng.random()
+    case["rel"] = "newer" if r < 0.78 else ("equal" if r < 0.92 else "older")
+    if rng.random() < 0.12 or case["rel"] == "equal":
         pre = mutate(rng, old)
         case["pre"] = render(pre)
+        if rng.random() < 0.3:
+            case["pre0"] = render(mutate(rng, pre))      # a chain of three reloads
+            case["pre_rel"] = rng.choice(["newer", "newer", "equal"])
     if rng.random() < 0.35:
         case["fail"] = dict(at=rng.randint(0, len(case["new"])), kind=rng.choice(FAIL_KINDS))
     case["items"] = dict(old=old, new=new)
